@@ -237,6 +237,91 @@ def run(ctx):
                         "%s changes the creation-order list %s with `%s`: only the creating function appends to it and a move hands it over whole; a list that is cleared, rebuilt "
                         "or reordered no longer records the order of creation (usage() lists in a different order after it)" % (short(f.qual), short(fld), txt[:80]), f)
         ctx.need("R15.2", "writes of %s" % short(fld), nwr, 1)
+    # ---- R15.5: the line budget of the wrapping routine (necessary conditions of the 80-column clause)
+    ctx.rule("R15.5", "format_padded's remaining-width bookkeeping: full width only at the pad column, no wrap-around, every written word is charged")
+    fp = one(ctx, "R15.5", "nitro::io::terminal::format_padded")
+    if fp:
+        from sa.callgraph import tree_effects, lvalue_root
+        loops = cfg.loop_blocks(fp)
+        inloop = set()
+        for h, body in loops:
+            inloop |= set(body)
+        # the budget: an integral local decremented inside the word loop
+        decs = []
+        for bid, i, e in fp.roots():
+            if bid not in inloop:
+                continue
+            for n in walk(e["expr"], into_sc=False):
+                if n.get("k") == "bin" and n["op"] in ("-=",) and ir.unwrap(n["l"]).get("k") == "ref" and ir.unwrap(n["l"]).get("decl", "").startswith("local:"):
+                    decs.append((bid, i, e, n, ir.unwrap(n["l"])["decl"][6:]))
+                if n.get("k") == "bin" and n["op"] == "=" and ir.unwrap(n["l"]).get("k") == "ref":
+                    r = ir.unwrap(n["r"])
+                    if isinstance(r, dict) and r.get("k") == "bin" and r["op"] == "-" and fmt(ir.unwrap(r["l"])) == fmt(ir.unwrap(n["l"])):
+                        decs.append((bid, i, e, {"k": "bin", "op": "-=", "l": n["l"], "r": r["r"], "ln": n.get("ln")}, ir.unwrap(n["l"])["decl"][6:]))
+        budgets = sorted({d[4] for d in decs})
+        if len(budgets) != 1:
+            ctx.broken("R15.5", fp, "budget-variable", "expected one local that is decremented per word inside the loop, found %s" % budgets, fp)
+        else:
+            bud = budgets[0]
+            btype = None
+            binit = None
+            for bid, i, e in fp.roots():
+                x = e["expr"]
+                if x.get("k") == "decl":
+                    for v in x.get("vars", []):
+                        if v["name"] == bud:
+                            btype, binit = v.get("type") or "", (bid, i, e, v.get("init"))
+            pads = [p0["name"] for p0 in fp.params if (p0.get("type") or "") in ("int", "unsigned int", "std::size_t", "size_t", "long", "unsigned long")]
+            pad, width = (pads + [None, None])[:2]
+
+            def is_full(x):
+                """max_width - left_pad (through casts and explaining variables that A0 has substituted)"""
+                x = ir.unwrap(x)
+                while isinstance(x, dict) and x.get("k") == "cast":
+                    x = ir.unwrap(x["e"])
+                return isinstance(x, dict) and x.get("k") == "bin" and x["op"] == "-" and fmt(ir.unwrap(x["l"])) == width and fmt(ir.unwrap(x["r"])) == pad
+
+            def is_zeroish(x):
+                return literal_value_(x) == 0
+            # (a) the full width is granted only where the column is at most the pad: behind a line break that re-pads, or
+            # under a comparison `position <= pad` of the stream's own position
+            fulls = []
+            if binit and binit[3] is not None and is_full(binit[3]):
+                fulls.append((binit[0], binit[1], binit[2]))
+            for bid, i, e in fp.roots():
+                for n in walk(e["expr"], into_sc=False):
+                    if n.get("k") == "bin" and n["op"] == "=" and fmt(ir.unwrap(n["l"])) == bud and is_full(n["r"]):
+                        fulls.append((bid, i, e))
+            ctx.need("R15.5", "grants of the full line width", len(fulls), 2)
+            for bid, i, e in fulls:
+                after_break = any(("endl" in fmt(e2["expr"]) or "'\\n'" in fmt(e2["expr"])) and ("setw(%s)" % pad) in fmt(e2["expr"]) for j, e2 in enumerate(fp.elems(bid)) if j < i and e2.get("expr") is not None)
+                under_cmp = bool(cfg.dominated_by_edge(fp, bid, lambda c: (lambda bo: bool(bo) and bo[0] == "<=" and fmt(ir.unwrap(bo[2])) == pad and "tellp" in _resolve_text(fp, bo[1]))(ir.as_binop(ir.unwrap(c)))))
+                ctx.check(after_break or under_cmp, "R15.5", fp, "full-width-only-at-pad-column@%s" % _rel(fp, e),
+                          "the budget `%s` is set to the full width %s - %s at line %s although the output position is not known to be at most %s there (no line break with re-padding before it, "
+                          "no `tellp() <= %s` test above it): text already on the line is not charged and the line can exceed the limit" % (bud, width, pad, e.get("ln"), pad, pad), (fp, e.get("ln")))
+            # (b) no wrap-around: the budget is signed, or each decrement is dominated by `amount <= budget`
+            unsigned = bool(re.search(r"unsigned|size_t|size_type", btype or ""))
+            for bid, i, e, n, _ in decs:
+                if not unsigned:
+                    ctx.ok("R15.5", fp, "budget-cannot-wrap@%s" % _rel(fp, e), "`%s` is %s: a word longer than what is left makes it negative, which forces the next break" % (bud, btype), (fp, e.get("ln")))
+                    continue
+                amt = fmt(ir.unwrap(n["r"]))
+                guarded = bool(cfg.dominated_by_edge(fp, bid, lambda c, amt=amt: (lambda bo: bool(bo) and ((bo[0] == "<=" and fmt(ir.unwrap(bo[1])) == amt and fmt(ir.unwrap(bo[2])) == bud) or (bo[0] == ">=" and fmt(ir.unwrap(bo[2])) == amt and fmt(ir.unwrap(bo[1])) == bud)))(ir.as_binop(ir.unwrap(c)))))
+                ctx.check(guarded, "R15.5", fp, "budget-cannot-wrap@%s" % _rel(fp, e),
+                          "`%s` has the unsigned type %s and `%s` is subtracted at line %s without `%s <= %s` being established on every path (the over-long-word path writes more than is left): "
+                          "the budget wraps to a huge value and every following word is put on the same line" % (bud, btype, amt, e.get("ln"), amt, bud), (fp, e.get("ln")))
+            # (c) every word written is charged: after an insertion of the word into the stream, the decrement happens before the next iteration
+            is_dec = lambda e: any(e is d[2] for d in decs)
+            for h, body in loops:
+                for b in body:
+                    for i, e in enumerate(fp.elems(b)):
+                        if e.get("expr") is None or is_dec(e):
+                            continue
+                        t = fmt(e["expr"])
+                        if "<<" in t and re.search(r"<< \w+\)+$", t) and not t.startswith("(s << setw") and any(v0 in t for v0 in ("word",)) or ("<<" in t and _inserts_loop_var(fp, e, body)):
+                            p = cfg.reaches_without(fp, (b, i), lambda x, hh=h: False, is_dec, stop_blocks={h}) if False else None
+                            ok = _dec_follows(fp, b, i, h, body, is_dec)
+                            ctx.check(ok, "R15.5", fp, "written-word-is-charged@%s" % _rel(fp, e), "a word is written at line %s and the iteration can end without the budget being reduced" % e.get("ln"), (fp, e.get("ln")))
     # ---- R15.3
     used = set()
     for bid, i, e in usage.roots():
@@ -277,3 +362,63 @@ def run(ctx):
             leaks = [fmt(n) for _, _, e in bf.roots() for n in elem_calls(e) if n.get("this") is not None and fmt(n["this"]) == buf and any(fmt(ir.unwrap(a)).startswith(target) for a in n.get("args", []))]
             ctx.check(not leaks, "R15.4", bf, "line-buffer-independent-of-target", "the line buffer takes state from the target stream (%s): padding/fill then depends on the stream the usage is written to" % leaks, bf)
     ctx.assume("the 80-column bound, word wrapping and 'no word lost' are string arithmetic on runtime text: not decided")
+
+
+def literal_value_(x):
+    from .common import literal_value
+    lv = literal_value(x)
+    return lv[1] if lv else None
+
+
+def _resolve_text(fp, n):
+    """rendering of n with single-definition locals replaced by their initialisers (one level)"""
+    from sa.valueflow import local_defs
+    t = fmt(ir.unwrap(n))
+    for m in set(re.findall(r"[A-Za-z_]\w*", t)):
+        defs = local_defs(fp, m)
+        if len(defs) == 1 and defs[0][0] == "init" and defs[0][1] is not None:
+            t += " ~ " + fmt(defs[0][1])
+    return t
+
+
+def _inserts_loop_var(fp, e, body):
+    """does this element insert the range-for loop variable into a stream?"""
+    names = set()
+    for b in body:
+        for el in fp.elems(b):
+            x = el.get("expr")
+            if isinstance(x, dict) and x.get("k") == "decl":
+                for v in x.get("vars", []):
+                    init = fmt(ir.unwrap(v.get("init"))) if v.get("init") is not None else ""
+                    if "__begin" in init:
+                        names.add(v["name"])
+    t = fmt(e["expr"])
+    return any(re.search(r"<< %s\b" % re.escape(nm), t) for nm in names)
+
+
+def _dec_follows(fp, b, i, head, body, is_dec):
+    """from (b, i) every path back to the loop head passes a decrement"""
+    seen = set()
+    st = [(b, i + 1)]
+    while st:
+        bb, j = st.pop()
+        if (bb, j) in seen:
+            continue
+        seen.add((bb, j))
+        hit = False
+        for k in range(j, len(fp.elems(bb))):
+            if is_dec(fp.elems(bb)[k]):
+                hit = True
+                break
+        if hit:
+            continue
+        for to, lab in fp.succs(bb):
+            if to == head:
+                return False
+            if to in body:
+                st.append((to, 0))
+    return True
+
+
+def _rel(f, e):
+    return "+%d" % ((e.get("ln") or f.line) - f.line)
